@@ -121,6 +121,9 @@ func init() {
 			Spec{Kind: "i64", Ret: "errkind", Ignore: append([]string{"copy"}, ign...), IgnoreLHS: []string{"sth"},
 				ErrCalls: map[string]string{"getSignedLogRoot": "rootFails", "signV1TreeHead": "signFails"},
 				Repl:     map[string]string{"err != nil": "signFails", "len(sth.TreeHeadSignature.Signature)": "sigLen"}})},
+		{"MirrorSTHGetter.GetSTH", handlerKernel(sthgo, "MirrorSTHGetter.GetSTH", "mirrorSTHGetterGetSTH", "(rootFails storeFails : Bool)", "ErrKind", "", "ErrKind.ok",
+			Spec{Kind: "i64", Ret: "errkind", Ignore: ign,
+				ErrCalls: map[string]string{"getSignedLogRoot": "rootFails", "sg.st.GetMirrorSTH": "storeFails"}})},
 		{"getSignedLogRoot", handlerKernel(sthgo, "getSignedLogRoot", "getSignedLogRoot", "(quotaSet quotaBadType rpcFails slrNil rootBad : Bool) (hashLen : Int)", "ErrKind × Bool",
 			"let rpc_ := false\n  ", "(ErrKind.ok, rpc_)",
 			Spec{Kind: "i64", Ret: "errkind", StateVars: []string{"rpc_"}, Ignore: ign, IgnoreLHS: []string{"req", "req.ChargeTo", "quotaUser", "ok", "slr", "currentRoot"},
